@@ -123,10 +123,20 @@ def check_text(text, script, cfg, audit=False):
                 a2 = X.compile_one(text, lvl, False)
             finally:
                 X.set_parse_cache(True)
-            if a2.kind != 'accepted' or any(
+            if a2.kind == 'timeout':
+                info['inconclusive'] = 'compile_timeout'
+            elif a2.kind != 'accepted' or any(
                     a2.sections.get(s) != a.sections.get(s)
                     for s in (1, 2, 3, 4)):
-                raise RuntimeError('parse cache audit failed')
+                import os
+                dump = os.path.join(os.path.dirname(os.path.dirname(
+                    os.path.abspath(__file__))), 'replays', 'C08',
+                    'audit_failed.bas')
+                os.makedirs(os.path.dirname(dump), exist_ok=True)
+                with open(dump, 'w') as f:
+                    f.write(text)
+                raise RuntimeError('parse cache audit failed (level %s, '
+                                   'text saved to %s): %r' % (lvl, dump, a2))
     return failures, info
 
 
@@ -178,7 +188,8 @@ def check(case, cfg):
     r = render.render(prog, style)
     text = r.text
     key = run_key(text, script)
-    audit = int(key[:2], 16) < 16
+    import os
+    audit = int(key[:2], 16) < 16 or bool(os.environ.get('QV_AUDIT_ALL'))
     failures, info = check_text(text, script, cfg, audit=audit)
     shapes = cases.shape_classes(prog)
     interesting = bool(shapes & {
